@@ -751,8 +751,14 @@ where
     #[inline]
     pub(crate) fn handle_clear_event(&mut self) -> Result<(), CacheError> {
         let res = CacheCleaner::new(self).clean();
+        #[cfg(transparencies_stretto_verif)]
+        crate::verif::sched::point("clear:after_drain");
         self.policy.clear();
+        #[cfg(transparencies_stretto_verif)]
+        crate::verif::sched::point("clear:after_policy_clear");
         self.store.clear();
+        #[cfg(transparencies_stretto_verif)]
+        crate::verif::sched::point("clear:after_store_clear");
         self.metrics.clear();
         res
     }
